@@ -2305,7 +2305,7 @@ sexp sexp_write_one (sexp ctx, sexp obj, sexp out, sexp_sint_t bound) {
       break;
     case SEXP_TYPE:
       sexp_write_string(ctx, "#<type ", out);
-      sexp_write(ctx, sexp_type_name(obj), out);
+      sexp_write_one(ctx, sexp_type_name(obj), out, bound+1);
       sexp_write_string(ctx, ">", out);
       break;
 #if 0
@@ -2381,27 +2381,27 @@ sexp sexp_write_one (sexp ctx, sexp obj, sexp out, sexp_sint_t bound) {
 #endif
 #if SEXP_USE_RATIOS
     case SEXP_RATIO:
-      sexp_write(ctx, sexp_ratio_numerator(obj), out);
+      sexp_write_one(ctx, sexp_ratio_numerator(obj), out, bound+1);
       sexp_write_char(ctx, '/', out);
-      sexp_write(ctx, sexp_ratio_denominator(obj), out);
+      sexp_write_one(ctx, sexp_ratio_denominator(obj), out, bound+1);
       break;
 #endif
 #if SEXP_USE_COMPLEX
     case SEXP_COMPLEX:
-      sexp_write(ctx, sexp_complex_real(obj), out);
+      sexp_write_one(ctx, sexp_complex_real(obj), out, bound+1);
       if (!sexp_pedantic_negativep(sexp_complex_imag(obj))
           && !sexp_infp(sexp_complex_imag(obj)))
         sexp_write_char(ctx, '+', out);
       if (sexp_complex_imag(obj) == SEXP_NEG_ONE)
         sexp_write_char(ctx, '-', out);
       else if (sexp_complex_imag(obj) != SEXP_ONE)
-        sexp_write(ctx, sexp_complex_imag(obj), out);
+        sexp_write_one(ctx, sexp_complex_imag(obj), out, bound+1);
       sexp_write_char(ctx, 'i', out);
       break;
 #endif
     case SEXP_OPCODE:
       sexp_write_string(ctx, "#<opcode ", out);
-      sexp_write(ctx, sexp_opcode_name(obj), out);
+      sexp_write_one(ctx, sexp_opcode_name(obj), out, bound+1);
       sexp_write_char(ctx, '>', out);
       break;
 #if SEXP_USE_BYTEVECTOR_LITERALS
@@ -2434,9 +2434,9 @@ sexp sexp_write_one (sexp ctx, sexp obj, sexp out, sexp_sint_t bound) {
       sexp_write_string(ctx, "#<SC ", out);
       sexp_write(ctx, sexp_make_fixnum(obj), out);
       sexp_write_char(ctx, ' ', out);
-      sexp_write(ctx, sexp_synclo_expr(obj), out);
+      sexp_write_one(ctx, sexp_synclo_expr(obj), out, bound+1);
       sexp_write_char(ctx, ' ', out);
-      sexp_write(ctx, sexp_synclo_rename(obj), out);
+      sexp_write_one(ctx, sexp_synclo_rename(obj), out, bound+1);
       sexp_write_char(ctx, '>', out);
       break;
     default:
@@ -2457,7 +2457,7 @@ sexp sexp_write_one (sexp ctx, sexp obj, sexp out, sexp_sint_t bound) {
           if (sexp_stringp(sexp_type_name(x)))
             sexp_write_string(ctx, sexp_string_data(sexp_type_name(x)), out);
           else
-            sexp_write(ctx, sexp_type_name(x), out);
+            sexp_write_one(ctx, sexp_type_name(x), out, bound+1);
           sexp_write_char(ctx, ' ', out);
           sexp_write(ctx, sexp_make_fixnum(obj), out);
           sexp_write_char(ctx, '>', out);
